@@ -163,7 +163,7 @@ def st_format(separators=None, comments=True):
         "block_separator": st.sampled_from(seps),
     }
     if comments:
-        d["parsing_failed_comment"] = st.sampled_from([None, None, "% FAILED ({n} lines)", "% failed", "%% {n}{n}"])
+        d["parsing_failed_comment"] = st.sampled_from([None, None, "% FAILED ({n} lines)", "% failed", "%% {n}{n}", "", " "])
     return st.fixed_dictionaries(d)
 
 
@@ -265,55 +265,121 @@ def all_middleware_specs():
     return specs
 
 
+# documented defaults of the shipped middlewares (signatures / docstrings): leaving an option out, passing its default
+# explicitly, and passing arguments by position are spellings of the same request
+MW_DEFAULTS = {
+    "allow_inplace_modification": True,
+    "case_sensitive": False,
+    "name_fields": ("author", "editor", "translator"),
+    "style": "last",
+    "keep_math": True,
+    "enclose_urls": True,
+    "keep_braced_groups": False,
+    "keep_math_mode": True,
+    "preserve_comments_on_top": True,
+}
+MW_POSITIONAL = {
+    "SortFieldsCustomMiddleware": ("order", "case_sensitive", "allow_inplace_modification"),
+    "AddEnclosingMiddleware": ("reuse_previous_enclosing", "enclose_integers", "default_enclosing", "allow_inplace_modification"),
+    "SeparateCoAuthors": ("allow_inplace_modification", "name_fields"),
+    "MergeCoAuthors": ("allow_inplace_modification", "name_fields"),
+    "SplitNameParts": ("allow_inplace_modification", "name_fields"),
+    "MergeNameParts": ("style", "allow_inplace_modification", "name_fields"),
+    "RemoveEnclosingMiddleware": ("allow_inplace_modification",),
+    "NormalizeFieldKeys": ("allow_inplace_modification",),
+    "MonthIntMiddleware": ("allow_inplace_modification",),
+    "SortBlocksByTypeAndKeyMiddleware": ("block_type_order", "preserve_comments_on_top"),
+}
+MW_OPTIONAL = {
+    "SortFieldsCustomMiddleware": ("case_sensitive",),
+    "SeparateCoAuthors": ("name_fields",), "MergeCoAuthors": ("name_fields",), "SplitNameParts": ("name_fields",),
+    "MergeNameParts": ("name_fields", "style"),
+    "LatexEncodingMiddleware": ("keep_math", "enclose_urls"),
+    "LatexDecodingMiddleware": ("keep_braced_groups", "keep_math_mode"),
+    "SortBlocksByTypeAndKeyMiddleware": ("preserve_comments_on_top",),
+}
+
+
+def construct(cls, kw, key):
+    """Build cls(**kw) in one of the equivalent spellings, picked by a hash of `key`: as given; options equal to their
+    documented default left out; documented defaults of omitted options passed explicitly; leading arguments by position."""
+    import zlib
+
+    h = zlib.crc32(repr((cls.__name__, key)).encode()) % 4
+    kw = dict(kw)
+    custom = "encoder" in kw or "decoder" in kw
+    if h == 1:
+        kw = {k: v for k, v in kw.items() if not (k in MW_DEFAULTS and v == MW_DEFAULTS[k] and type(v) is type(MW_DEFAULTS[k]))}
+    elif h == 2 and not custom:
+        for k in MW_OPTIONAL.get(cls.__name__, ()):
+            kw.setdefault(k, MW_DEFAULTS[k])
+        if cls.__name__ != "SortBlocksByTypeAndKeyMiddleware":
+            kw.setdefault("allow_inplace_modification", True)
+        elif "block_type_order" not in kw:
+            from bibtexparser.middlewares.sorting_blocks import DEFAULT_BLOCK_TYPE_ORDER
+
+            kw["block_type_order"] = DEFAULT_BLOCK_TYPE_ORDER
+    elif h == 3 and cls.__name__ in MW_POSITIONAL:
+        args = []
+        for k in MW_POSITIONAL[cls.__name__]:
+            if k not in kw:
+                break
+            args.append(kw.pop(k))
+        return cls(*args, **kw)
+    return cls(**kw)
+
+
 def make_middleware(spec, inplace=False):
     import bibtexparser.middlewares as m
     from bibtexparser import model
 
     name = spec["mw"]
+    key = (sorted((k, repr(v)) for k, v in spec.items()), inplace)
     kw = {"allow_inplace_modification": inplace}
     if name == "RemoveEnclosing":
-        return m.RemoveEnclosingMiddleware(**kw)
+        return construct(m.RemoveEnclosingMiddleware, kw, key)
     if name == "AddEnclosing":
-        return m.AddEnclosingMiddleware(reuse_previous_enclosing=spec["reuse"], enclose_integers=spec["enclose_integers"], default_enclosing=spec["default"], **kw)
+        return construct(m.AddEnclosingMiddleware, dict(kw, reuse_previous_enclosing=spec["reuse"], enclose_integers=spec["enclose_integers"], default_enclosing=spec["default"]), key)
     if name == "ResolveStringReferences":
-        return m.ResolveStringReferencesMiddleware(**kw)
+        return construct(m.ResolveStringReferencesMiddleware, kw, key)
     if name == "NormalizeFieldKeys":
-        return m.NormalizeFieldKeys(**kw)
+        return construct(m.NormalizeFieldKeys, kw, key)
     if name == "MonthInt":
-        return m.MonthIntMiddleware(**kw)
+        return construct(m.MonthIntMiddleware, kw, key)
     if name == "MonthAbbreviation":
-        return m.MonthAbbreviationMiddleware(**kw)
+        return construct(m.MonthAbbreviationMiddleware, kw, key)
     if name == "MonthLongString":
-        return m.MonthLongStringMiddleware(**kw)
+        return construct(m.MonthLongStringMiddleware, kw, key)
     if name == "SortFieldsAlphabetically":
-        return m.SortFieldsAlphabeticallyMiddleware(**kw)
+        return construct(m.SortFieldsAlphabeticallyMiddleware, kw, key)
     if name == "SortFieldsCustom":
-        return m.SortFieldsCustomMiddleware(order=tuple(spec["order"]), case_sensitive=spec["case_sensitive"], **kw)
+        return construct(m.SortFieldsCustomMiddleware, dict(kw, order=tuple(spec["order"]), case_sensitive=spec["case_sensitive"]), key)
     if name == "LatexEncoding":
         if spec.get("custom"):
-            return m.LatexEncodingMiddleware(encoder=_RaisingEncoder(), **kw)
+            return construct(m.LatexEncodingMiddleware, dict(kw, encoder=_RaisingEncoder()), key)
         opts = {k: spec[k] for k in ("keep_math", "enclose_urls") if k in spec}
-        return m.LatexEncodingMiddleware(**opts, **kw)
+        return construct(m.LatexEncodingMiddleware, dict(kw, **opts), key)
     if name == "LatexDecoding":
         if spec.get("custom"):
-            return m.LatexDecodingMiddleware(decoder=_RaisingDecoder(), **kw)
+            return construct(m.LatexDecodingMiddleware, dict(kw, decoder=_RaisingDecoder()), key)
         opts = {k: spec[k] for k in ("keep_braced_groups", "keep_math_mode") if k in spec}
-        return m.LatexDecodingMiddleware(**opts, **kw)
+        return construct(m.LatexDecodingMiddleware, dict(kw, **opts), key)
     if name in ("SeparateCoAuthors", "MergeCoAuthors", "SplitNameParts"):
         cls = getattr(m, name)
         if spec.get("name_fields") is not None:
             kw["name_fields"] = tuple(spec["name_fields"])
-        return cls(**kw)
+        return construct(cls, kw, key)
     if name == "MergeNameParts":
         if spec.get("name_fields") is not None:
             kw["name_fields"] = tuple(spec["name_fields"])
-        return m.MergeNameParts(style=spec["style"], **kw)
+        return construct(m.MergeNameParts, dict(kw, style=spec["style"]), key)
     if name == "SortBlocks":
         types = {"String": model.String, "Preamble": model.Preamble, "Entry": model.Entry, "ImplicitComment": model.ImplicitComment,
                  "ExplicitComment": model.ExplicitComment}
-        if spec.get("order") is None:
-            return m.SortBlocksByTypeAndKeyMiddleware(preserve_comments_on_top=spec["preserve"])
-        return m.SortBlocksByTypeAndKeyMiddleware(block_type_order=tuple(types[t] for t in spec["order"]), preserve_comments_on_top=spec["preserve"])
+        kw2 = {"preserve_comments_on_top": spec["preserve"]}
+        if spec.get("order") is not None:
+            kw2["block_type_order"] = tuple(types[t] for t in spec["order"])
+        return construct(m.SortBlocksByTypeAndKeyMiddleware, kw2, key)
     raise ValueError(f"unknown middleware spec {spec!r}")
 
 
